@@ -109,6 +109,20 @@ def run(ctx):
             rejects += 1
             continue
         inputs.append(({'family': 'random', 'text': txt, 'as': 'pred' if obj.is_predicate else 'expr'}, obj))
+    # shapes on which a rewriting function has to build new nodes (the rule-directed family shared with C03 / C16) and quantifiers
+    # whose body a simplifier could reduce to something that no longer mentions the variable (shared with C08)
+    from rulefam import rule_directed
+    import importlib
+    c08 = importlib.import_module('streams.c08')
+    for r in rule_directed(rng, ctx.quick) + c08.quantifier_family():
+        try:
+            txt = render(r, rng, 'min')
+            boolish = r[0] in ('quant', 'un') or (r[0] == 'bin' and r[1] in ('>', '=', '!=', '<', '<=', '>=', 'in', 'and', 'or', 'implies', 'iff'))
+            obj = prp.parse('{' + txt + '}') if (boolish and rng.random() < 0.5) else ep.parse(txt)
+        except Exception:
+            rejects += 1
+            continue
+        inputs.append(({'family': 'rule-directed', 'text': txt, 'as': 'pred' if obj.is_predicate else 'expr'}, obj))
     props = []
     pg = PropGen(rng)
     for _ in range(120 if ctx.quick else 1500):
